@@ -11,7 +11,6 @@ use crate::engine::*;
 use crate::gen::formula::*;
 use proptest::prelude::*;
 use serde::{Deserialize, Serialize};
-use serde_json::Value;
 use std::collections::BTreeSet;
 
 pub fn prop() -> Prop {
@@ -585,12 +584,9 @@ pub fn case_json(c: &Case) -> String {
 
 fn subs() -> Vec<Box<dyn DynSub>> {
     vec![
-        Box::new(Sub { name: "same", strategy: same_cases, cases: (1500, 40_000), check, max_shrink_iters: 3000 }),
-        Box::new(Sub { name: "far-edit", strategy: far_cases, cases: (600, 12_000), check, max_shrink_iters: 3000 }),
-        Box::new(Sub { name: "translate", strategy: translate_cases, cases: (1500, 40_000), check, max_shrink_iters: 3000 }),
-        Box::new(Sub { name: "dirty", strategy: dirty_cases, cases: (300, 4_000), check, max_shrink_iters: 3000 }),
+        Box::new(Sub { name: "same", strategy: same_cases, cases: (2500, 40_000), check, max_shrink_iters: 3000 }),
+        Box::new(Sub { name: "far-edit", strategy: far_cases, cases: (1000, 12_000), check, max_shrink_iters: 3000 }),
+        Box::new(Sub { name: "translate", strategy: translate_cases, cases: (2500, 40_000), check, max_shrink_iters: 3000 }),
+        Box::new(Sub { name: "dirty", strategy: dirty_cases, cases: (400, 4_000), check, max_shrink_iters: 3000 }),
     ]
 }
-
-#[allow(dead_code)]
-fn _unused(_: &Value) {}
